@@ -473,6 +473,119 @@ def c06():
     print("C06_chains: %d curves, %d theorems" % (len(pk), len(gen) + len(audit) + 1))
 
 
+# ------------------------------------------------------------------------------------------------ C03
+
+C03_HEAD = r"""import GnarkVerif.Proofs.Chain
+import GnarkVerif.Gen.Chains.Curve
+import GnarkVerif.Gen.CurveConsts
+import Mathlib.Algebra.Group.Int.Defs
+""" + NOTE + r"""/-
+C03 / C02 (tie T for the seed-multiplication chains) — `mulBySeed` of G1Jac / G2Jac (ecc/<curve>/g1.go, g2.go; used by the
+cofactor clearing and the subgroup membership tests), re-translated on every run by tools/goslp/chains.go into ADDITIVE chain
+DATA (Gen/Chains/Curve.lean): `Double` / `DoubleAssign` (sq), `AddAssign` (mul), `SubAssign` / `Neg` (inv), `Set`,
+literal-bound loops. Each is translated as p.mulBySeed(q) and as the in-place call p.mulBySeed(p).
+
+(a) `C03_chain_addGroup` (once, for every chain): in every additive group, with `+`, doubling and negation,
+    a chain with exponent reading `expoInt c = some k` computes `k • P`; `C03_chain_points`: the same through a
+    representation relation (Jacobian triples representing points of the curve group), whose hypotheses are what Props/C02_gen
+    proves for the translated `AddAssign` / `Double` / `Neg` formulas (`generated def = group operation` bridge lemmas);
+(b) per curve by `decide +kernel` against the regenerated seed: `mulBySeed` multiplies by `xGen` = |x₀| (the callers handle
+    the sign), for G1 and G2 of bn254, bls12-377, bls12-381, bw6-761; the other curves implement `mulBySeed` as
+    `mulWindowed(q, &xGen)` (`C03_chains_windowed`: the list of those and the constant they pass).
+-/
+namespace GV.Chain
+
+/-! ## (a) generic -/
+
+section
+variable {A : Type} [AddGroup A]
+
+/-- the additive reading of the operations -/
+def addGroupOps (A : Type) [AddGroup A] : Ops A :=
+  { mul := (· + ·), sq := fun a => a + a, inv := fun a => -a, sqc := fun a => a + a, dec := id }
+
+theorem C03_chain_points {T : Type} (o : Ops T) (rep : T → A → Prop)
+    (hadd : ∀ a b P Q, rep a P → rep b Q → rep (o.mul a b) (P + Q))
+    (hdbl : ∀ a P, rep a P → rep (o.sq a) (P + P))
+    (hneg : ∀ a P, rep a P → rep (o.inv a) (-P))
+    (hsqc : ∀ a P, rep a P → rep (o.sqc a) (P + P)) (hdec : ∀ a P, rep a P → rep (o.dec a) P)
+    (c : Chain) (k : Int) (hk : expoInt c = some k) (x : T) (P : A) (hx : rep x P) :
+    rep (eval o c x) (k • P) := by
+  have S : Sim intDom o (fun t e => rep t (e • P)) (fun t e => rep t (e • P)) :=
+    { weaken := fun _ _ h => h
+      mul := by
+        intro a b e f ha hb
+        show rep (o.mul a b) ((e + f) • P)
+        rw [add_zsmul]; exact hadd a b _ _ ha hb
+      sq := by
+        intro a e ha
+        show rep (o.sq a) ((2 * e) • P)
+        rw [Int.two_mul, add_zsmul]; exact hdbl a _ ha
+      invF := by
+        intro ng h a e ha; cases h
+        show rep (o.inv a) ((-e) • P)
+        rw [neg_zsmul]; exact hneg a _ ha
+      invC := by
+        intro ng h a e ha; cases h
+        show rep (o.inv a) ((-e) • P)
+        rw [neg_zsmul]; exact hneg a _ ha
+      sqc := by
+        intro a e ha
+        show rep (o.sqc a) ((2 * e) • P)
+        rw [Int.two_mul, add_zsmul]; exact hsqc a _ ha
+      dec := fun a e ha => hdec a _ ha }
+  exact S.eval_spec c k hk x (by show rep x ((1 : Int) • P); rw [one_zsmul]; exact hx)
+
+theorem C03_chain_addGroup (c : Chain) (k : Int) (hk : expoInt c = some k) (P : A) :
+    eval (addGroupOps A) c P = k • P :=
+  C03_chain_points (addGroupOps A) (fun t Q => t = Q)
+    (by intro a b P Q ha hb; subst ha; subst hb; rfl) (by intro a P ha; subst ha; rfl)
+    (by intro a P ha; subst ha; rfl) (by intro a P ha; subst ha; rfl) (by intro a P ha; exact ha) c k hk P P rfl
+
+end
+
+/-- non-vacuity: 2P + P, doubled twice, minus P = 11·P, in ℤ -/
+def toy11 : Chain := { nregs := 4, out := 1, steps := [.sq 2 0 1, .mul 2 2 0, .sq 2 2 2, .inv 3 0, .mul 2 2 3, .set 1 2] }
+example : expoInt toy11 = some 11 := by decide
+example (P : ℤ) : eval (addGroupOps ℤ) toy11 P = (11 : ℤ) • P := C03_chain_addGroup toy11 11 (by decide) P
+example : eval (addGroupOps ℤ) toy11 7 = 77 := by decide
+
+/-! ## (b) per curve -/
+
+open GV.Gen.Chains.Curve
+"""
+
+
+def curve_chains():
+    s = open(os.path.join(GEN, "Chains", "Curve.lean")).read()
+    pk = {}
+    for m in re.finditer(r'\("(\w+)", "(\w+)", \w+\.\w+\)', s):
+        pk.setdefault(m.group(1), []).append(m.group(2))
+    w = re.search(r'def windowed : [^\n]* := (\[.*\])', s).group(1)
+    return pk, w
+
+
+def c03():
+    pk, w = curve_chains()
+    body, audit = [], []
+    for curve, fns in pk.items():
+        body.append("namespace %s" % curve)
+        for fn in fns:
+            body.append("/-- `%s` multiplies by `xGen` = |x₀| -/\ntheorem %s_expo : expoInt %s.%s = some GV.Gen.CurveConsts.%s.xGen := by decide +kernel"
+                        % (fn.replace("_", " ", 1), fn, curve, fn, curve))
+            audit.append("GV.Chain.%s.%s_expo" % (curve, fn))
+        body.append("end %s\n" % curve)
+    tail = ("/-- the chains covered -/\ntheorem C03_chains_functions : GV.Gen.Chains.Curve.curveChains.map (fun e => (e.1, e.2.1)) = [%s] := by decide\n\n"
+            % ", ".join('("%s", "%s")' % (c, f) for c, fns in pk.items() for f in fns))
+    tail += ("/-- the `mulBySeed` that are `p.mulWindowed(q, &xGen)` (the generic windowed multiplication by the extracted constant `xGen`; C03 correspondence) -/\n"
+             "theorem C03_chains_windowed : GV.Gen.Chains.Curve.windowed = %s := by decide\n\nend GV.Chain\n" % w)
+    write(os.path.join(PROPS, "C03_chains.lean"), C03_HEAD + "\n".join(body) + "\n" + tail)
+    gen = ["GV.Chain.Sim.eval_spec", "GV.Chain.C03_chain_points", "GV.Chain.C03_chain_addGroup"]
+    au = "import GnarkVerif.Props.C03_chains\n" + "".join("#print axioms %s\n" % t for t in gen + audit + ["GV.Chain.C03_chains_functions", "GV.Chain.C03_chains_windowed"])
+    write(os.path.join(AUDIT, "C03_chains.lean"), au)
+    print("C03_chains: %d curves, %d theorems" % (len(pk), len(gen) + len(audit) + 2))
+
+
 # ------------------------------------------------------------------------------------------------ main
 
 if __name__ == "__main__":
@@ -481,3 +594,5 @@ if __name__ == "__main__":
         c01()
     if "C06" in which:
         c06()
+    if "C03" in which:
+        c03()
